@@ -99,7 +99,7 @@ def load_findings(pid):
 def check_proofs(check):
     """Full build + the Print Assumptions log of the property file."""
     t0 = time.time()
-    rc, out = sh([os.path.join(ROOT, "bin", "coqbuild")], timeout=3400)
+    rc, out = sh([os.path.join(ROOT, "bin", "coqbuild"), os.path.basename(check.theorem_file)[:-2]], timeout=3400)
     res = {"build_ok": rc == 0, "build_tail": out[-2000:] if rc != 0 else "", "theorems": [],
            "obligations": 0, "discharged": 0, "axioms": [], "wall_s": 0.0}
     vfile = os.path.join(ROOT, "coq", check.theorem_file)
